@@ -41,11 +41,13 @@ STD_CLASSES: List[dict] = [
     {"kind": "typed", "total": True, "fields": [("k", None, None, True), ("o", None, None, True)]},   # 16
     # a dataclass whose optional field gets its default from default_factory (a mutable default)
     {"kind": "data", "fields": [("a", None, None, True), ("b", None, ("VList", []), False)]},         # 17
+    # a NamedTuple with two defaulted fields (an earlier one may be absent while a later one is given)
+    {"kind": "named", "fields": [("x", None, None, True), ("y", None, ("VStr", [100]), False), ("z", None, ("VInt", 7), False)]},  # 18
 ]
 from . import build as _B
 _B.STD_DESCS[0] = STD_CLASSES
 (C_DATA, C_SLOTS, C_NAMED, C_TYPED, C_PLAIN, C_STR, C_INT, C_DICT, C_LIST, C_FROZEN, C_TYPED2, C_UNHASH,
- C_POSTINIT, C_BASE2, C_DERIVED2, C_SLOTSUB, C_TYPED_ALLREQ, C_FACTORY) = range(18)
+ C_POSTINIT, C_BASE2, C_DERIVED2, C_SLOTSUB, C_TYPED_ALLREQ, C_FACTORY, C_NAMED2) = range(19)
 
 
 def S(s: str):
@@ -115,7 +117,8 @@ PARSE_STRS = [S("1.5"), S(" 12 "), S("1_0"), S("NaN"), S("sNaN"), S("Infinity"),
               S("2020-01-02 03:04:05.123456"), S("2020-13-01"),
               S("12345678-1234-5678-1234-567812345678"), S("{12345678-1234-5678-1234-567812345678}"),
               S("urn:uuid:12345678-1234-5678-1234-567812345678"), S("12345678123456781234567812345678"),
-              S("1234"), S("١٢")]
+              S("1234"), S("١٢"), S("0"), S("0.00"), S("-0"), S(" 0 "), S("0e5"),
+              S("2020-01-01Z"), S("20200101Z"), S("2020-01-02T03:04:05Z"), S("2020-W01-1Z"), S("²"), S("①")]
 BYTESS = [B(b""), B(b"a"), B(b" a "), B(b"ab"), B(b"\xff"), B(b"aB"), B(b"\x0b")]
 DECS = [D(False, 0, 0), D1, D10, D15, DN0, D(False, 2, 0), D(True, 1, 0), D(False, 3, 0)]
 DECS_HOSTILE = [DNAN, DSNAN, DINF, DBIG, ("VDecimal", ("DInf", True))]
@@ -306,6 +309,7 @@ CLASS_SCHEMAS = {
     C_SLOTSUB: ("RkData", [("a", True), ("b", False)]),
     C_TYPED_ALLREQ: ("RkTyped", [("k", True), ("o", True)]),
     C_FACTORY: ("RkData", [("a", True), ("b", False)]),
+    C_NAMED2: ("RkNamed", [("x", True), ("y", False), ("z", False)]),
 }
 
 
@@ -319,6 +323,36 @@ def gen_classv(rng: random.Random, sub: Callable[[], Any], obj, aobj, cid: Optio
         co = Some(("CoDataclassNoCoerce", N(cid))) if rk == "RkData" else (
             Some(("CoNamedTupleNoCoerce", N(cid))) if rk == "RkNamed" else Some(("CoUser", N(5))))
     return ("ClassV", (rk,), N(cid), schema, o, aobj(o is not None), rng.random() < 0.4, co)
+
+
+def instance_cases(rng: random.Random) -> list:
+    """(validator, input) pairs: instances of the target class whose fields hold what only an instance can
+    hold without a mapping in between - other instances, opaque objects, containers of them, values the field
+    validator coerces - under field validators that pass them through or coerce them."""
+    out = []
+    ANY = ("AlwaysValid",)
+    frozen = ("VObj", N(C_FROZEN), [P(S("v"), I(1))])
+    inner = [OBJ, UOBJ, frozen, ("VObj", N(C_DATA), [P(S("a"), I(1)), P(S("b"), I(5))]),
+             ("VList", [OBJ]), ("VList", [("VObj", N(C_FROZEN), [P(S("v"), OBJ)])]),
+             ("VDict", [P(S("k"), ("VObj", N(C_FROZEN), [P(S("v"), I(2))]))]), ("VTuple", [OBJ, I(1)]), I(1), NONE]
+    # (field validator, values it accepts)
+    kinds = [(ANY, inner), (("ListV", ANY, [], [], None), [("VList", [OBJ]), ("VList", [frozen, I(1)]), ("VList", [])]),
+             (("Scalar", ("KType", ("TClass", N(C_FROZEN))), None, [], [], []), [frozen]),
+             (("OptionalV", ("NoneV", None), ANY), inner),
+             # coercing fields: the payload holds the child's payload (Decimal(5)), not the equal raw value (5)
+             (("Scalar", ("KDecimal",), Some(("CoDecimal",)), [], [], []), [I(5), I(0), S("1.5"), D1]),
+             (("UTupleV", ANY, [], [], Some(("CoTupleOrList",))), [("VList", [I(1), I(2)]), ("VTuple", [OBJ]), ("VList", [])])]
+    for cid in (C_DATA, C_DERIVED2, C_FACTORY, C_NAMED, C_NAMED2, C_SLOTS):
+        rk, flds = CLASS_SCHEMAS[cid]
+        for fv, good in kinds:
+            for strict in (False, True):
+                v = ("ClassV", (rk,), N(cid), [P(S(n), P(fv, req)) for n, req in flds], None, None, strict, None)
+                for _ in range(3):
+                    vals = [rng.choice(good) if rng.random() < 0.8 else rng.choice(inner) for _ in flds]
+                    x = ("VObj", N(cid), [P(S(n), y) for (n, _r), y in zip(flds, vals)])
+                    out.append((v, x))
+                    out.append((("ListV", v, [], [], None), ("VList", [x])))
+    return out
 
 
 # ---------------------------------------------------------------------------
@@ -342,7 +376,7 @@ def valid_input(v, rng: random.Random, lazy: list, depth: int = 6):
             if p[0] == "PChoices" and p[1]:
                 return rng.choice(p[1])
         if v[2] is not None and v[2].x[0] in ("CoDecimal", "CoUuid", "CoDate", "CoDatetime") and rng.random() < 0.4:
-            return rng.choice(PARSE_STRS)
+            return rng.choice(PARSE_STRS + (INTS[3:7] if v[2].x[0] == "CoDecimal" else []))
         return rng.choice(pool)
     if c == "NoneV":
         return NONE
